@@ -249,8 +249,11 @@ class DataLoggerRun:
             res.add("C17", "never_returns", f"the recording side spun for ever in a wait loop (dead tasks: {dead}; "
                                             f"last op: {res.trace[-1] if res.trace else '?'})", sig="never_returns")
         except TaskHung as e:
+            # a task that never comes back to a simulator call is blocked in something the simulator
+            # does not own (e.g. a real lock inside another library): a harness limitation, not a verdict
             hung = True
-            res.add("C17", "hang", f"task hung: {e.where}")
+            from sim.baton import SimInternalError
+            raise SimInternalError(f"task hung outside the simulator's control: {e.where}")
         except SimStall as e:
             res.add("C17", "deadlock", f"recorder and writer deadlocked: {e}", sig="deadlock")
         except Exception as e:
